@@ -765,6 +765,9 @@ def json_extract_precedence(expression: exp.Expression) -> exp.Expression:
     See https://github.com/tekumara/fakesnow/issues/53
     """
     if isinstance(expression, (exp.JSONExtract, exp.JSONExtractScalar)):
+        # the children of a replaced node are not visited by transform, so parenthesise the extractions inside the
+        # expression that is navigated here, eg: iff(not v:flag, null, v):a
+        expression.set("this", expression.this.transform(json_extract_precedence))
         return exp.Paren(this=expression)
     return expression
 
